@@ -2,17 +2,19 @@
 from vlib.core import Case
 
 ID = "C04"
-COMPONENTS = ["inflow"]
+COMPONENTS = ["inflow", "s_inflowconn"]
 T4 = ["InFlow"]
 PROOF_MODULES = ["GrpcProofs.Properties.C04"]
 THEOREMS = ["GrpcProofs.C04." + t for t in (
     "ledger_exact", "accepts_conforming_peer", "rejects_only_excess", "advertised_le_max_partial",
     "advertised_bound_counterexample", "no_wedge", "big_read_granted", "monitor_accepts_model",
-    "conn_ledger", "conn_window")]
+    "conn_ledger", "conn_window", "conn_streams_exact", "conn_accepts_iff_fits", "new_stream_window")]
 DESIGN_REF = "DESIGN.md section 8, C04 (+ the two C04 readings in section 7)"
 TECHNIQUE = ("Lean 4 theorems (invariant induction over legal histories of the ported uint32 bookkeeping with the peer-side window as "
-             "ghost state; omega over wrap-around arithmetic) + T1 op-level differential correspondence on the real inFlow/trInFlow + "
-             "T4 regenerated constants")
+             "ghost state; omega over wrap-around arithmetic; lifted to a connection with stream registration interleaved with BDP "
+             "updates) + T1 op-level differential correspondence on the real inFlow/trInFlow + T2 quiescent-step correspondence of a "
+             "real http2Client (dynamic window) against a scripted HTTP/2 peer under testing/synctest, judged by a peer-side window "
+             "ledger built from the frames the client sent + T4 regenerated constants")
 LEVEL_TEXT = ("Machine-checked Lean proof, for every interleaving of DATA frames (any size < 2^24, padded or not, conforming or not), "
               "read requests of any size < 2^32, reads, and BDP limit increases that follows the callers' protocol, that the peer-side "
               "window equals limit+delta-(pendingData+pendingUpdate), that a frame is accepted iff it fits that window, that the window "
@@ -21,17 +23,26 @@ LEVEL_TEXT = ("Machine-checked Lean proof, for every interleaving of DATA frames
 LEVEL_NOTE = ("Trusted: Lean kernel; the hand model lean/GrpcModel/Model/InFlow.lean (tied op by op, all four fields compared, incl. "
               "arguments around 2^31 and 2^32 and histories outside the protocol); the callers' protocol Ghost.legal (requestRead(n) "
               "is followed by reads adding up to n; padding is returned right after onData; BDP limits only grow, <= 16 MiB) is read "
-              "off http2_client.go/http2_server.go/transport.go, not tied by a transport-level run. Readings (DESIGN 7): 'restored to "
+              "off http2_client.go/http2_server.go/transport.go. The connection-level model (InFlowConn: a stream gets inFlow{limit: "
+              "initialWindowSize} when it is registered; a BDP update raises initialWindowSize, every active stream and the "
+              "advertised SETTINGS together) is tied by T2 on a real http2Client: WINDOW_UPDATE/RST frames and every stream's four "
+              "fields are predicted and compared after each quiescent step; which queued NewStream registers, whether a BDP ping "
+              "goes out and the window the float BDP estimator picks are taken from the implementation (no clock/scheduler in "
+              "the model), and the monitor judges the frames alone (no FLOW_CONTROL reset of a peer inside its windows, excess "
+              "reset, windows <= 2^31-1). The server transport's registration path is not driven. Readings (DESIGN 7): 'restored to "
               "at least the configured window' = adv + pendingUpdate = limit + delta with pendingUpdate < limit/4 once all delivered "
               "data is read (literal adv >= limit is false by design of the quarter-window batching); the 2^31-1 bound carries the "
               "side condition 'no BDP update while limit+delta would exceed it', the excluded point is run and reported as F20.")
-GAP = "BDP estimator RTT arithmetic (only its output n matters); connection-level accounting is per trInFlow call, handleData/updateFlowControl themselves are not driven (no transport in the loop)"
+GAP = "BDP estimator RTT arithmetic (only its output n matters); T2 drives the client transport only (http2_server operateHeaders/updateFlowControl have the same shape and are covered by the model, not by a run); schedules inside one quiescent step are the Go runtime's"
 ASSUMPTIONS = ["callers' protocol as in Ghost.legal: one reader per stream; Stream.read/ReadMessageHeader call requestRead(n) then read exactly n bytes; initial limit <= 2^31-1",
                "DATA frame flow-controlled length < 2^24 (HTTP/2 frame length field)", "BDP updates n satisfy limit <= n <= bdpLimit (bdp_estimator.go)"]
 RULE = ("protocol cases (peer mostly conforming, one overshoot; padded frames; header+body reads, bodies up to 2^32-1; BDP "
         "updates), huge-message cases (>= 2 GiB in maximal frames), raw cases (arbitrary method calls with arguments at 0..5, "
         "16384+-1, 2^24, 2^31+-2, 2^32-1: only diffed), connection cases (conforming and raw). Non-trivial = a non-zero window "
-        "update or a rejection occurred; distinct = distinct op list.")
+        "update or a rejection occurred; distinct = distinct op list. T2 (s_inflowconn): queued-stream cases (NewStream queued on "
+        "MAX_CONCURRENT_STREAMS 1..3 before/after one or two BDP rounds, then the peer fills the window advertised for the newly "
+        "registered stream with a slow/absent reader, padded frames, optional one-byte overshoot) and random walks over several "
+        "streams (frames within the windows, reads of all sizes incl. blocking and > window, BDP rounds, stream ends).")
 
 MAXW = 2**31 - 1
 W = 2**32
@@ -273,6 +284,287 @@ def conn_case(rng, idx, raw):
     return Case("inflow", ops, "conn-%s-%d" % ("raw" if raw else "proto", idx))
 
 
+
+# ---------------------------------------------------------------------------------------------
+# T2: real http2Client (dynamic window) against a scripted server -- component s_inflowconn
+
+class ConnSim:
+    """generator-side simulation of one client connection (peer ledger + the client's bookkeeping); it only
+    steers generation towards mostly-conforming peers, the verdicts come from the implementation's frames"""
+
+    def __init__(self, k):
+        self.k, self.iws = k, 65535
+        self.climit, self.unacked, self.pconn = 65535, 0, 65535
+        self.st = {}            # worker -> dict(fc, pwin, chunks, pend, dead)
+        self.waiting, self.nopen = [], 0
+        self.now = 0            # virtual ms
+        self.bdp, self.is_sent, self.sample, self.sent_at = 65535, False, 0, 0
+        self.rtt, self.bw_max, self.count, self.ping_out = 0.0, 0.0, 0, False
+
+    def open(self, w):
+        self.st[w] = dict(fc=PyInFlow(self.iws), pwin=self.iws, chunks=[], pend=None, dead=False)
+        self.nopen += 1
+
+    def new(self, w):
+        if self.nopen < self.k:
+            self.open(w)
+        else:
+            self.waiting.append(w)
+
+    def alive(self, w):
+        return w in self.st and not self.st[w]["dead"]
+
+    def conn_credit(self):
+        self.pconn += self.unacked
+        self.unacked = 0
+
+    def consume(self, w):
+        s = self.st[w]
+        while s["pend"] and s["chunks"]:
+            k = min(s["chunks"][0], s["pend"])
+            s["pwin"] += s["fc"].on_read(k)
+            s["pend"] -= k
+            if k == s["chunks"][0]:
+                s["chunks"].pop(0)
+            else:
+                s["chunks"][0] -= k
+        if s["pend"] == 0:
+            s["pend"] = None
+
+    def sdata(self, w, ln, pad):
+        size = ln if pad is None else 1 + ln + pad
+        self.pconn -= size
+        self.unacked += size
+        if self.unacked >= self.climit // 4:
+            self.conn_credit()
+        if self.bdp != BDP:
+            if not self.is_sent:
+                self.is_sent, self.sample, self.sent_at, self.ping_out = True, size, self.now, True
+                self.count += 1
+                self.conn_credit()
+            else:
+                self.sample += size
+        if not self.alive(w) or size == 0:
+            return
+        s = self.st[w]
+        s["pwin"] -= size
+        if s["fc"].on_data(size):
+            self.kill(w)
+            return
+        if pad is not None:
+            s["pwin"] += s["fc"].on_read(size - ln)
+        if ln > 0:
+            s["chunks"].append(ln)
+        self.consume(w)
+
+    def read(self, w, n):
+        s = self.st[w]
+        s["pwin"] += s["fc"].maybe_adjust(n)
+        s["pend"] = n if n > 0 else None
+        self.consume(w)
+
+    def kill(self, w):
+        self.st[w]["dead"] = True
+        self.nopen -= 1
+        if self.waiting:
+            self.open(self.waiting.pop(0))
+
+    def pingack(self):
+        if not self.ping_out:
+            return
+        self.ping_out = False
+        rtt_sample = (self.now - self.sent_at) / 1000.0
+        if self.count < 10:
+            self.rtt += (rtt_sample - self.rtt) / float(self.count)
+        else:
+            self.rtt += (rtt_sample - self.rtt) * 0.9
+        self.is_sent = False
+        bw = float("inf") if self.rtt == 0 else float(self.sample) / (self.rtt * 1.5)
+        if bw > self.bw_max:
+            self.bw_max = bw
+        if float(self.sample) >= 0.66 * float(self.bdp) and bw == self.bw_max and self.bdp != BDP:
+            n = min(int(2 * float(self.sample)), BDP)
+            self.bdp = n
+            d = n - self.iws
+            self.iws = n
+            self.pconn += n - self.climit
+            self.climit = n
+            for s in self.st.values():
+                if not s["dead"]:
+                    s["fc"].limit = n
+                    s["pwin"] += d
+
+
+def conn_frame(r, sim, w, cap=16384, exact=None):
+    """one conforming DATA frame on w (None if nothing fits)"""
+    s = sim.st[w]
+    room = min(s["pwin"], sim.pconn, cap)
+    if room <= 0:
+        return None
+    if r.random() < 0.15 and room >= 3:
+        pad = r.choice([0, 1, 7, 255])
+        pad = min(pad, room - 2)
+        ln = r.choice([room - 1 - pad, max(0, (room - 1 - pad) // 2), 0, 1])
+        ln = max(0, min(ln, room - 1 - pad))
+        return ln, pad
+    ln = exact if exact and exact <= room else r.choice([room, room, room, max(1, room - 1), r.randrange(1, room + 1)])
+    return ln, None
+
+
+def emit_frame(ops, sim, w, fr):
+    ln, pad = fr
+    ops.append("sdata %d %d %s" % (w, ln, "-" if pad is None else str(pad)))
+    sim.sdata(w, ln, pad)
+
+
+def bdp_round(r, sim, ops, w, want_increase=True):
+    """traffic on w while a BDP ping is outstanding, then its ack (usually enough for an increase)"""
+    target = int(0.66 * sim.bdp) + 1 if want_increase else r.randrange(1, max(2, int(0.5 * sim.bdp)))
+    guard = 0
+    while guard < 12 and sim.alive(w) and (not sim.is_sent or sim.sample < target):
+        guard += 1
+        fr = conn_frame(r, sim, w)
+        if fr is None:
+            # the application makes room
+            k = sum(sim.st[w]["chunks"])
+            if k == 0 or sim.st[w]["pend"]:
+                break
+            ops.append("read %d %d" % (w, k))
+            sim.read(w, k)
+            continue
+        emit_frame(ops, sim, w, fr)
+    ms = r.choice([0, 1, 5, 20, 100])
+    if ms:
+        ops.append("sleep %d" % ms)
+        sim.now += ms
+    ops.append("pingack")
+    sim.pingack()
+
+
+def queued_case(rng, idx):
+    """the class 'a stream is registered after the window changed': NewStream calls queue on
+    MAX_CONCURRENT_STREAMS while BDP rounds raise the initial window; once registered, the peer uses the
+    window it was advertised for the new stream (slow or absent reader, reads smaller than the window),
+    finally overshoots by a little"""
+    r = rng
+    k = r.choice([1, 1, 2, 3])
+    sim = ConnSim(k)
+    ops = ["conn %d" % k]
+    nxt = 1
+    holders = []
+    for _ in range(k):
+        ops.append("new %d" % nxt)
+        sim.new(nxt)
+        holders.append(nxt)
+        nxt += 1
+    queued = nxt
+    nxt += 1
+    order = r.random()
+    if order < 0.7:
+        ops.append("new %d" % queued)           # queued before the window grows
+        sim.new(queued)
+    for _ in range(r.choice([1, 1, 2])):
+        bdp_round(r, sim, ops, r.choice(holders), want_increase=r.random() < 0.9)
+    if order >= 0.7:
+        ops.append("new %d" % queued)           # queued after the window grew
+        sim.new(queued)
+    victim = r.choice(holders)
+    ops.append("sclose %d" % victim)
+    sim.kill(victim)
+    # the peer fills the window it was given for the newly registered stream
+    w = queued
+    guard = 0
+    while sim.alive(w) and guard < 40:
+        guard += 1
+        x = r.random()
+        if x < 0.75:
+            fr = conn_frame(r, sim, w)
+            if fr is None:
+                break
+            emit_frame(ops, sim, w, fr)
+        elif x < 0.9 and sim.st[w]["chunks"] and not sim.st[w]["pend"]:
+            n = r.choice([1, 5, 1000, sim.st[w]["chunks"][0], sum(sim.st[w]["chunks"])])
+            n = min(n, sum(sim.st[w]["chunks"]))
+            ops.append("read %d %d" % (w, n))
+            sim.read(w, n)
+        elif sim.ping_out and x < 0.95:
+            ops.append("pingack")
+            sim.pingack()
+    if sim.alive(w) and r.random() < 0.5 and sim.st[w]["pwin"] < 16384 and sim.pconn > sim.st[w]["pwin"] + 2:
+        # one byte (or a few) more than the stream window: must be reset with FLOW_CONTROL
+        emit_frame(ops, sim, w, (sim.st[w]["pwin"] + r.choice([1, 1, 2, 50]), None))
+    elif sim.alive(w) and sim.st[w]["chunks"] and not sim.st[w]["pend"]:
+        n = sum(sim.st[w]["chunks"])
+        ops.append("read %d %d" % (w, n))
+        sim.read(w, n)
+    return Case("s_inflowconn", ops, "queued-%d-k%d" % (idx, k))
+
+
+def conn_walk_case(rng, idx):
+    """random walk: several streams, frames within the windows, reads of all sizes (some blocking, some
+    larger than the window), BDP rounds, stream ends, at most one queued NewStream at a time"""
+    r = rng
+    k = r.choice([1, 2, 4, 100])
+    sim = ConnSim(k)
+    ops = ["conn %d" % k]
+    nxt = 1
+    for _ in range(r.randrange(8, 60)):
+        live = [w for w in sim.st if sim.alive(w)]
+        x = r.random()
+        if x < 0.12 and nxt < 8 and (sim.nopen < k or not sim.waiting):
+            ops.append("new %d" % nxt)
+            sim.new(nxt)
+            nxt += 1
+        elif not live:
+            if nxt < 8:
+                ops.append("new %d" % nxt)
+                sim.new(nxt)
+                nxt += 1
+            continue
+        elif x < 0.6:
+            w = r.choice(live)
+            fr = conn_frame(r, sim, w)
+            if fr is not None:
+                emit_frame(ops, sim, w, fr)
+        elif x < 0.8:
+            w = r.choice(live)
+            s = sim.st[w]
+            if s["pend"]:
+                continue
+            have = sum(s["chunks"])
+            n = r.choice([0, 1, 5, have, have, max(1, have // 2), have + r.choice([1, 100, 70000]), 200000])
+            ops.append("read %d %d" % (w, n))
+            sim.read(w, n)
+        elif x < 0.9:
+            if sim.ping_out:
+                ms = r.choice([0, 1, 10, 50])
+                if ms:
+                    ops.append("sleep %d" % ms)
+                    sim.now += ms
+                ops.append("pingack")
+                sim.pingack()
+        elif x < 0.95 and len(live) > 0:
+            w = r.choice(live)
+            if not sim.st[w]["pend"]:
+                ops.append("sclose %d" % w)
+                sim.kill(w)
+    return Case("s_inflowconn", ops, "walk-%d-k%d" % (idx, k))
+
+
+def conn_fixed_cases():
+    out = []
+    # a queued stream registered after a BDP increase gets the new window and the peer fills it
+    out.append(["conn 1", "new 1", "new 2", "sdata 1 16384 -", "sdata 1 16384 -", "sdata 1 16384 -", "sleep 10", "pingack",
+                "sclose 1", "sdata 2 16384 -", "sdata 2 16384 -", "sdata 2 16384 -", "sdata 2 16384 -", "sdata 2 16384 -",
+                "sdata 2 16384 -", "read 2 1000", "read 2 97304"])
+    # exactly the initial window, then one byte more
+    out.append(["conn 100", "new 1", "sdata 1 16384 -", "sdata 1 16384 -", "sdata 1 16384 -", "sdata 1 16383 -", "sdata 1 1 -"])
+    # a read four times the window while data keeps coming
+    out.append(["conn 100", "new 1", "read 1 262140", "sdata 1 16384 -", "sdata 1 16000 100", "sdata 1 16384 -", "sdata 1 16384 -",
+                "sdata 1 16384 -"])
+    return [Case("s_inflowconn", o, "connfixed-%d" % i) for i, o in enumerate(out)]
+
+
 def fixed_cases():
     out = []
     # the excluded point of the 2^31-1 bound: a BDP update while a ~2 GiB read is in flight (known finding F20)
@@ -293,8 +585,13 @@ def fixed_cases():
 
 def gen(rng, tier):
     n = {"quick": 400, "thorough": 20000, "search": 6000}[tier]
+    nconn = {"quick": 60, "thorough": 1500, "search": 600}[tier]
     for c in fixed_cases():
         yield c
+    for c in conn_fixed_cases():
+        yield c
+    for i in range(nconn):
+        yield queued_case(rng, i) if i % 2 == 0 else conn_walk_case(rng, i)
     for i in range(n):
         m = i % 10
         if m < 5:
@@ -311,4 +608,6 @@ def gen(rng, tier):
 
 def nontrivial(case, impl_lines):
     # some window update was actually emitted or some frame was judged
+    if case.component == "s_inflowconn":
+        return any("ev=" in l and ("W" in l.split(" | ")[0] or "R" in l.split(" | ")[0]) for l in impl_lines)
     return any((l.split(" ")[0].isdigit() and l.split(" ")[0] != "0") or l.startswith("err") for l in impl_lines)
